@@ -42,14 +42,14 @@ type c18Case struct {
 }
 
 var c18Raws = []string{
-	"  leaf zz1 { }\n",                                    // missing mandatory substatement (type)
-	"  bogus-statement 1;\n",                              // unknown keyword in context
-	"  container zz2 { config true; config false; }\n",    // second occurrence of a single-valued substatement
-	"  leaf zz3 { type string; type string; }\n",          // duplicated type
+	"  leaf zz1 { }\n",                                 // missing mandatory substatement (type)
+	"  bogus-statement 1;\n",                           // unknown keyword in context
+	"  container zz2 { config true; config false; }\n", // second occurrence of a single-valued substatement
+	"  leaf zz3 { type string; type string; }\n",       // duplicated type
 	"  container zz4 { typedef zt { type string; } list zz5 { typedef zt2 { type zt; } frobnicate; } }\n", // typedefs at nested scope, then an unknown keyword
 	"  grouping zg { typedef zt3 { type nosuchtype; } leaf zl { type zt3; } } import;\n",                  // nested typedef, then a rejected import
-	"  leaf zz6 { type string; default \"a\\qb\"; }\n",    // bad escape
-	"  container zz7 {\n",                                 // unbalanced brace
+	"  leaf zz6 { type string; default \"a\\qb\"; }\n",                                                    // bad escape
+	"  container zz7 {\n", // unbalanced brace
 	"  leaf zz8 { type string; description \"unterminated; }\n",
 	"  typedef zt4 { type zt4; } leaf zz9 { }\n", // self-referential typedef registered, then rejection
 }
